@@ -17,6 +17,7 @@ use vh::snapshot::{Scratch, Snapshot};
 
 use crate::c04::fmt_plain;
 
+const N_EXPLICIT: usize = 10;
 const SUBDIRS: [&str; 4] = ["bin", "lib", "include", "pkgconfig"];
 const KINDS: [&str; 6] = ["absent", "dir", "file", "link->dir", "link->file", "dangling"];
 
@@ -24,8 +25,9 @@ fn is_dir_kind(k: usize) -> bool {
     k == 1 || k == 3
 }
 
-fn explicit_envs() -> Vec<(&'static str, AbsEnv)> {
-    let mk = |items: &[(Sc, Beh, &str, &str)]| -> AbsEnv { items.iter().map(|(s, b, n, v)| ((s.clone(), *b, n.as_bytes().to_vec()), v.as_bytes().to_vec())).collect() };
+fn explicit_envs(layer: &Path) -> Vec<(&'static str, AbsEnv)> {
+    let l = layer.to_str().unwrap().to_string();
+    let mk = |items: &[(Sc, Beh, &str, &str)]| -> AbsEnv { items.iter().map(|(s, b, n, v)| ((s.clone(), *b, n.as_bytes().to_vec()), v.replace("<LAYER>", &l).into_bytes())).collect() };
     vec![
         ("none", AbsEnv::new()),
         ("PATH override in all", mk(&[(Sc::All, Beh::Override, "PATH", "/explicit")])),
@@ -34,6 +36,10 @@ fn explicit_envs() -> Vec<(&'static str, AbsEnv)> {
         ("CPATH prepend in build", mk(&[(Sc::Build, Beh::Prepend, "CPATH", "/pre")])),
         // a non-empty env.launch/<process>/ directory: the implicit entries still apply for build and
         // launch only, and a read->write cycle must not add anything to the process directory
+        // explicit entries whose value is exactly the implicit one (the layer's own bin/lib path)
+        ("PATH default=<layer>/bin in build", mk(&[(Sc::Build, Beh::Default, "PATH", "<LAYER>/bin")])),
+        ("LD_LIBRARY_PATH append=<layer>/lib in all, no delimiter", mk(&[(Sc::All, Beh::Append, "LD_LIBRARY_PATH", "<LAYER>/lib")])),
+        ("PATH prepend=<layer>/bin + delim in launch", mk(&[(Sc::Launch, Beh::Prepend, "PATH", "<LAYER>/bin"), (Sc::Launch, Beh::Delim, "PATH", ":")])),
         ("X override in process p", mk(&[(Sc::Process("p".into()), Beh::Override, "X", "1")])),
         ("PATH append+delim in process p, LD_LIBRARY_PATH default in launch", mk(&[(Sc::Process("p".into()), Beh::Append, "PATH", "/proc"), (Sc::Process("p".into()), Beh::Delim, "PATH", ":"), (Sc::Launch, Beh::Default, "LD_LIBRARY_PATH", "/dflt")])),
     ]
@@ -124,10 +130,12 @@ fn one_assignment(assign: [usize; 4], cycles: usize) -> (u64, u64, Vec<Viol>, BT
     let mut outcomes = BTreeSet::new();
     let desc = |i: usize| format!("{}={}", SUBDIRS[i], KINDS[assign[i]]);
     let adesc: Vec<String> = (0..4).map(desc).collect();
-    for (ename, abs) in explicit_envs() {
+    // the scratch path differs per environment, so the list is rebuilt for each
+    for ei in 0..N_EXPLICIT {
         let sc = Scratch::new("c10");
         let ctx = mk_context(&sc.path);
         let layer = ctx.layers_dir.join("a");
+        let (ename, abs) = explicit_envs(&layer).swap_remove(ei);
         make_layer(&layer, &sc.path.join("outside"), assign);
         std::fs::write(ctx.layers_dir.join("a.toml"), "[types]\ncache = true\nbuild = true\nlaunch = true\n").unwrap();
         real_env(&abs).write_to_layer_dir(&layer).expect("write explicit env");
@@ -233,8 +241,8 @@ pub fn run(args: &Args) {
     rep.cov("fixpoint_cycles_run", fix);
     rep.cov("distinct_nontrivial", outcomes.len() as u64);
     rep.cov("distinct_outcomes", outcomes.len() as u64);
-    rep.cov("rule", "all 6^4 assignments of {absent, dir, file, symlink->dir, symlink->file, dangling symlink} to bin/lib/include/pkgconfig x 7 explicit envs (two with a non-empty per-process directory) on the same variables x 3 start envs (unset, set, empty) x 4 query scopes, each read by the real read_from_layer_dir and compared with the reference; per assignment x explicit env, read->write cycles by 4 routes (LayerEnv, cached_layer keep+read_env/write_env, handle_layer Keep, handle_layer Update with the default impl) must leave the env directories unchanged. distinct_nontrivial = distinct (scope, resulting environment) outcomes with the scratch path normalised");
-    rep.cov("bound", json!({"assignments": assigns.len(), "explicit_envs": 7, "start_envs": 3, "scopes": 4, "cycles": cycles, "routes": 4}));
+    rep.cov("rule", "all 6^4 assignments of {absent, dir, file, symlink->dir, symlink->file, dangling symlink} to bin/lib/include/pkgconfig x 10 explicit envs (two with a non-empty per-process directory, three whose value is exactly the layer's own bin/lib path) on the same variables x 3 start envs (unset, set, empty) x 4 query scopes, each read by the real read_from_layer_dir and compared with the reference; per assignment x explicit env, read->write cycles by 4 routes (LayerEnv, cached_layer keep+read_env/write_env, handle_layer Keep, handle_layer Update with the default impl) must leave the env directories unchanged. distinct_nontrivial = distinct (scope, resulting environment) outcomes with the scratch path normalised");
+    rep.cov("bound", json!({"assignments": assigns.len(), "explicit_envs": 10, "start_envs": 3, "scopes": 4, "cycles": cycles, "routes": 4}));
     rep.cov("exhaustive", true);
     rep.sample(json!({"assignment": {"bin": "link->dir", "lib": "file", "include": "dir", "pkgconfig": "dangling"}, "explicit": "PATH append+delim in build", "scope": "Build", "start": "all five variables set"}));
     rep.sample(json!({"fixpoint": "bin=dir lib=dir include=absent pkgconfig=absent; handle_layer Keep x3; env dirs must stay as written"}));
